@@ -67,6 +67,25 @@ def run(tier, config):
     # D2 ledger
     n = K.ledger_obligations(rep, c, "C19", lambda s: True, kinds=("assert", "call"))
     K.loop_obligations(rep, c)
+    # D2b the flag value parsers live in the library (clap `value_parser = ...`): an invalid flag value must come back as a
+    # parse error, so their panic sites are part of this property too
+    lib = K.crate("gamedig-lib", "baseline")
+    vp = set()
+    for g in Q.bodies(lib, True):
+        if g.get("impl_trait") == "clap_builder::derive::Args" and g["name"] in ("augment_args", "augment_args_for_update"):
+            gb = Body(g)
+            for bj, t, k in Q.calls(g):
+                if k.startswith("Arg::value_parser") and len(t["args"]) > 1:
+                    r = gb.render_operand(t["args"][1], 3, names=False)
+                    if r.startswith("fn:"):
+                        tail = r[3:]
+                        for f2 in lib.fns:
+                            if f2["kind"] == "Fn" and f2["path"].endswith("::" + tail):
+                                vp.add(f2["path"])
+    from .. import sites as S
+    n_vp = K.ledger_obligations(rep, lib, "C19", lambda s_: s_.path in vp, kinds=("assert", "call"), label="flag-parser-site") if vp else 0
+    rep.count("flag_value_parsers", len(vp))
+    rep.add("cli|flag-value-parsers-found", "C19:D2b", len(vp) >= 1, "value parsers of the CLI flags defined in the library: %s" % sorted(x.split("gamedig::")[-1] for x in vp), nontrivial=False)
     # D3 XML names
     n_xml = 0
     for f in Q.bodies(c):
